@@ -41,9 +41,13 @@ var configs = []cfg{
 	{text: `SecRule ARGS_GET:/^Ab/ "@streq x" "id:1,phase:1,deny"`},
 	{text: `SecRule REQUEST_HEADERS:/^Ab/ "@streq x" "id:1,phase:1,deny"`},
 	{text: `SecRule ARGS "@validateNid cl abc.def" "id:1,phase:1,deny"`},
+	{text: "SecDataset ips `\n10.0.0.1\n`\nSecRule ARGS_GET:a \"@ipMatchFromDataset ips\" \"id:1,phase:1,deny\""},
+	{text: "SecDataset ips `\n10.0.0.2\n`\nSecRule ARGS_GET:a \"@ipMatchFromDataset ips\" \"id:1,phase:1,deny\""},
+	{text: "SecRule REQUEST_URI \"@restpath /files/(?P<name>a|ab)\" \"id:1,phase:1,pass,nolog\"\nSecRule ARGS_PATH:name \"@streq ab\" \"id:2,phase:1,deny\""},
+	{text: `SecRule ARGS "@validateNid cl \/files\/(?P<name>a|ab)" "id:1,phase:1,pass,nolog"`},
 }
 
-var probes = []string{"abc.def", "abcxdef", "abc", "xyz", "names", "x", "ABC.DEF", "abc def", "def", `{"id":1}`, `{"sn":1}`, `{}`}
+var probes = []string{"abc.def", "abcxdef", "abc", "xyz", "names", "x", "ABC.DEF", "abc def", "def", `{"id":1}`, `{"sn":1}`, `{}`, "10.0.0.1", "10.0.0.2", "files/ab", "files/a"}
 
 type wafOut struct {
 	Cfg    int               `json:"cfg"`
